@@ -79,7 +79,7 @@ def _wrappings(parts):
 
 def _assignments(coords, tier, k):
     kk = len(coords)
-    if tier == "thorough" and kk <= 4:
+    if tier == "thorough" and kk <= 3:
         return list(itertools.product(STYLES, repeat=kk))
     assigns = [tuple(["sync"] * kk), tuple(["async"] * kk), tuple(STYLES[i % 2] for i in range(kk)), tuple(STYLES[(i + 1) % 2] for i in range(kk))]
     if k == 3:
@@ -197,7 +197,7 @@ def check_case(case, st):
             out.append(("blocking-opt/" + m.split(":")[0].split("(")[0], {"scn": scn, "keys": case["keys"], "config": "blocking-opt", "choices": []}, m))
         for cfg in H.CONFIGS[1:]:
             bad = 0
-            for choices, obs, world in S.schedules(cfg, scn, st, free=free, bound=(b["early_bound"] - (1 if "m4" in case["query"] else 0)), max_execs=(3000 if st.tier == "quick" else 50000)):
+            for choices, obs, world in S.schedules(cfg, scn, st, free=free, bound=(b["early_bound"] - (1 if ("m4" in case["query"] or (st.tier == "thorough" and len(case["keys"]) >= 3)) else 0)), max_execs=(3000 if st.tier == "quick" else 50000)):
                 st.n("evaluations")
                 if choices and len(case["keys"]) >= 2:
                     st.nt((case["query"], sorted(case["custom"].items()), sorted(ov.items()), cfg, choices))
